@@ -146,6 +146,113 @@ def execExtend (c : Cont) (keys : List Key) : List EStmt → Graph → Option (L
       | .error e => .error e
       | .ok g1 => execExtend c keys rest g1 acc
 
+/-! ## the `MultiTag.positions` / `MultiTag.extents` setters, statement by statement -/
+
+inductive RStmt where
+  /-- `if da is None: raise TypeError(...)` -/
+  | refuseNone
+  /-- `if not isinstance(da, DataArray): raise TypeError(...)` -/
+  | requireArray
+  /-- `if da not in self._parent.<store>: raise RuntimeError(...)` -/
+  | requireMember (store : String)
+  /-- `if "<role>" in self._h5group: del self._h5group["<role>"]` -/
+  | dropOld (role : String)
+  /-- `self._h5group.create_link(da, "<role>")` -/
+  | link (role : String)
+  /-- `if self.file.auto_update_timestamps: self.force_updated_at()` (C19's statement; no link is touched) -/
+  | stamp
+  deriving DecidableEq, Repr, Inhabited
+
+/-- run a setter body on the multi-tag node `o` of block `b` with the assigned value (`none` = Python's None) -/
+def execRole (o b : Nat) : List RStmt → Graph → Option Nat → Except Err Graph
+  | [], g, _ => .ok g
+  | .refuseNone :: rest, g, t =>
+    match t with
+    | none => .error .typeError
+    | some _ => execRole o b rest g t
+  | .requireArray :: rest, g, t =>
+    match t with
+    | some k => if isKind g k "data_array" then execRole o b rest g t else .error .typeError
+    | none => .error .typeError
+  | .requireMember store :: rest, g, t =>
+    match t with
+    | some k => if inBlockStore g b store k then execRole o b rest g t else .error .runtimeError
+    | none => .error .typeError
+  | .dropOld role :: rest, g, t =>
+    execRole o b rest (if g.hasChild o role then g.delLink o role else g) t
+  | .link role :: rest, g, t =>
+    match t with
+    | some k => execRole o b rest (createLinkIn g o role k) t
+    | none => .error .typeError
+  | .stamp :: rest, g, t => execRole o b rest g t
+
+/-- `if da is None: <noneBody> else: <setBody>`, then `<tail>` (the shape of the `extents` setter) -/
+def execRoleIfNone (o b : Nat) (noneBody setBody tail : List RStmt) (g : Graph) (t : Option Nat) : Except Err Graph :=
+  match t with
+  | none => execRole o b (noneBody ++ tail) g t
+  | some _ => execRole o b (setBody ++ tail) g t
+
+/-! ## the `Feature.data` setter, statement by statement -/
+
+inductive FStmt where
+  /-- `if dataobj is None: raise TypeError(...)` -/
+  | refuseNone
+  /-- `parblock = self._parent._parent` -/
+  | bindBlock
+  /-- `if isinstance(dataobj, DataArray): <a> elif isinstance(dataobj, DataFrame): <f> else: raise TypeError(...)` -/
+  | classChain (arrayBranch frameBranch : List FStmt)
+  /-- `if dataobj not in parblock.<store>: raise RuntimeError(...)` -/
+  | requireMember (store : String)
+  /-- `if self.link_type == LinkType.Tagged: raise UnsupportedLinkType(...)` -/
+  | refuseTagged
+  /-- `objtype = "<text>"` -/
+  | setObjType (text : String)
+  /-- `self._h5group.set_attr("target_type", objtype)` -/
+  | writeTargetType
+  /-- `if "data" in self._h5group: del self._h5group["data"]` -/
+  | dropOld
+  /-- `self._h5group.create_link(dataobj, "data")` -/
+  | link
+  /-- the time stamp (C19's statement) -/
+  | stamp
+  deriving Repr, Inhabited
+
+/-- run a `Feature.data` setter body on the feature node `o` of block `b`; `objtype` is the local variable of that
+name (writing `target_type` before it is bound is a NameError) -/
+def execFeat (o b : Nat) (t : Option Nat) : Nat → List FStmt → Graph → Option String → Except Err (Graph × Option String)
+  | 0, _, _, _ => .error .runtimeError
+  | _ + 1, [], g, ot => .ok (g, ot)
+  | fuel + 1, st :: rest, g, ot =>
+    match st, t with
+    | .refuseNone, none => .error .typeError
+    | .refuseNone, some _ => execFeat o b t fuel rest g ot
+    | .bindBlock, _ => execFeat o b t fuel rest g ot
+    | .classChain ab fb, some k =>
+      if isKind g k "data_array" then
+        match execFeat o b t fuel ab g ot with
+        | .error e => .error e
+        | .ok (g1, ot1) => execFeat o b t fuel rest g1 ot1
+      else if isKind g k "data_frame" then
+        match execFeat o b t fuel fb g ot with
+        | .error e => .error e
+        | .ok (g1, ot1) => execFeat o b t fuel rest g1 ot1
+      else .error .typeError
+    | .classChain _ _, none => .error .typeError
+    | .requireMember store, some k =>
+      if inBlockStore g b store k then execFeat o b t fuel rest g ot else .error .runtimeError
+    | .requireMember _, none => .error .typeError
+    | .refuseTagged, _ =>
+      if g.getAttr o "link_type" == some "tagged" then .error .valueError else execFeat o b t fuel rest g ot
+    | .setObjType text, _ => execFeat o b t fuel rest g (some text)
+    | .writeTargetType, _ =>
+      match ot with
+      | some text => execFeat o b t fuel rest (g.setAttr o "target_type" (some text)) ot
+      | none => .error .attributeError
+    | .dropOld, _ => execFeat o b t fuel rest (if g.hasChild o "data" then g.delLink o "data" else g) ot
+    | .link, some k => execFeat o b t fuel rest (createLinkIn g o "data" k) ot
+    | .link, none => .error .typeError
+    | .stamp, _ => execFeat o b t fuel rest g ot
+
 /-! ## kept handles
 
 An entity handle (`H5Group`) is a parent group OBJECT, a link name in it, and the HDF5 object it opened.  Its
